@@ -35,6 +35,9 @@ type opSpec struct {
 	GCAfter bool    `json:"gc_after_run,omitempty"`
 	// FailLate: failing bodies write (half of) their outputs before they fail. SecondPlain
 	// (with run_twice): the second run of the process is not forced although the first was.
+	// NetFailAt: the k-th repository operation of this process fails (a fetch that cannot
+	// complete); with reload, the failed reload is followed by another one later.
+	NetFailAt int `json:"network_fails_at,omitempty"`
 	// REPL: the build is started through the REPL's run(label, always=, dry_run=, callback=)
 	// builtin; the events reach a Starlark callback through dawn's channel-based adapter.
 	REPL        bool `json:"via_repl_run_builtin,omitempty"`
